@@ -13,7 +13,7 @@ def work(patch):
     tmp = tempfile.mkdtemp(prefix="benchk_")
     try:
         shutil.copytree("/repo/ariadne_codegen", os.path.join(tmp, "ariadne_codegen"))
-        p = subprocess.run(["patch", "-p1", "-s", "-i", patch], cwd=tmp, capture_output=True, text=True)
+        p = subprocess.run(["git", "apply", "--include=ariadne_codegen/*", patch], cwd=tmp, capture_output=True, text=True)
         if p.returncode != 0:
             return patch, [("PATCH-FAILED", p.stdout[-200:] + p.stderr[-200:])]
         r = subprocess.run(["/venv/bin/python", os.path.join(ROOT, "check.py"), "--repo", tmp, "--all", "--no-evidence"], capture_output=True, text=True)
